@@ -13,6 +13,8 @@ fn alpha_rich() -> FAlphabet {
         andor: vec![(Lit::One, Lit::Str), (Lit::Nil, Lit::One), (Lit::False, Lit::Tbl), (Lit::Str, Lit::Nil)],
         andor_conds: conds_full(0),
         vars: vec![0],
+        rhs_conds: vec![],
+        rhs_lits: vec![],
         if_return: true,
         loop_conds: vec![],
         for_counts: vec![],
@@ -31,6 +33,8 @@ fn alpha_mid() -> FAlphabet {
         andor: vec![(Lit::One, Lit::Str), (Lit::Nil, Lit::False)],
         andor_conds: core_atoms(0),
         vars: vec![0],
+        rhs_conds: vec![],
+        rhs_lits: vec![],
         if_return: true,
         loop_conds: vec![],
         for_counts: vec![],
@@ -47,12 +51,56 @@ fn alpha_core() -> FAlphabet {
         andor: vec![(Lit::One, Lit::Str), (Lit::Nil, Lit::One)],
         andor_conds: vec![Cond::Truthy(0), Cond::EqNil(0), Cond::TypeEq(0, Ty::String)],
         vars: vec![0],
+        rhs_conds: vec![],
+        rhs_lits: vec![],
         if_return: true,
         loop_conds: vec![],
         for_counts: vec![],
         for_in: false,
         break_conds: vec![],
     }
+}
+/// every literal in every operand position of the and/or right-hand sides, nesting depth ≤ 2,
+/// for `local a = R` and for `a = R`
+fn alpha_rhs(core: bool) -> FAlphabet {
+    let lits: Vec<Lit> = if core { vec![Lit::One, Lit::Tbl, Lit::Nil] } else { LITS.to_vec() };
+    let rhs_conds = if core { vec![Cond::Truthy(0)] } else { vec![Cond::Truthy(0), Cond::EqNil(0), Cond::TypeEq(0, Ty::String)] };
+    let mut andor = Vec::new();
+    for &l1 in &lits {
+        for &l2 in &lits {
+            andor.push((l1, l2));
+        }
+    }
+    FAlphabet {
+        label: if core {
+            "rhs-core: one local; [local] a = R with R ∈ {lit, a or lit, c and lit, c and l1 or l2, (c and l1) or l2, a or (a or lit), c and (a or lit), a or (c and lit)}, c = a, lit ∈ {1,{},nil} in every position; if-conditions {a, a==nil}".into()
+        } else {
+            "rhs: one local; [local] a = R with R ∈ {lit, a or lit, c and lit, c and l1 or l2, (c and l1) or l2, a or (a or lit), c and (a or lit), a or (c and lit)}, c ∈ {a, a==nil, type(a)=='string'}, every one of the six literals in every literal position; if-conditions {a, a==nil, type(a)=='string'}".into()
+        },
+        conds: if core { vec![Cond::Truthy(0), Cond::EqNil(0)] } else { vec![Cond::Truthy(0), Cond::EqNil(0), Cond::TypeEq(0, Ty::String)] },
+        lits: lits.clone(),
+        or_lits: lits.clone(),
+        andor,
+        andor_conds: rhs_conds.clone(),
+        vars: vec![0],
+        rhs_conds,
+        rhs_lits: lits,
+        if_return: true,
+        loop_conds: vec![],
+        for_counts: vec![],
+        for_in: false,
+        break_conds: vec![],
+    }
+}
+/// the extended right-hand sides over two locals (operands and conditions may name the other local)
+fn alpha_rhs_two() -> FAlphabet {
+    let mut a = alpha_rhs(true);
+    a.label = "rhs-two: two locals a,b; [local] x = R as in rhs-core with the variable operand and the condition ranging over {a,b}; lit ∈ {1,{},nil}; if-conditions {a, b==nil}".into();
+    a.vars = vec![0, 1];
+    a.rhs_conds = vec![Cond::Truthy(0), Cond::Truthy(1)];
+    a.andor_conds = a.rhs_conds.clone();
+    a.conds = vec![Cond::Truthy(0), Cond::EqNil(1)];
+    a
 }
 fn alpha_two() -> FAlphabet {
     let mut conds = vec![
@@ -75,6 +123,8 @@ fn alpha_two() -> FAlphabet {
         andor: vec![(Lit::One, Lit::Str)],
         andor_conds: vec![Cond::Truthy(1), Cond::EqNil(0)],
         vars: vec![0, 1],
+        rhs_conds: vec![],
+        rhs_lits: vec![],
         if_return: true,
         loop_conds: vec![],
         for_counts: vec![],
@@ -96,8 +146,20 @@ pub fn run(args: &Args) -> ! {
     let n_mid = args.extra_usize("nmid").unwrap_or(n_mid);
     let n_core = args.extra_usize("ncore").unwrap_or(n_core);
     let n_two = args.extra_usize("ntwo").unwrap_or(n_two);
+    let n_rhs = args.extra_usize("nrhs").unwrap_or(2);
+    let n_rhs_core = args.extra_usize("nrhscore").unwrap_or(args.tier.pick(0, 3));
+    let n_rhs_two = args.extra_usize("nrhstwo").unwrap_or(args.tier.pick(0, 2));
     let mut plan: Vec<(&str, FAlphabet, usize)> = Vec::new();
-    for n in 1..=n_rich.max(n_core).max(n_two).max(n_mid) {
+    for n in 1..=n_rich.max(n_core).max(n_two).max(n_mid).max(n_rhs).max(n_rhs_core).max(n_rhs_two) {
+        if n <= n_rhs {
+            plan.push(("rhs", alpha_rhs(false), n));
+        }
+        if n <= n_rhs_core {
+            plan.push(("rhs-core", alpha_rhs(true), n));
+        }
+        if n <= n_rhs_two {
+            plan.push(("rhs-two", alpha_rhs_two(), n));
+        }
         if n <= n_rich {
             plan.push(("rich", alpha_rich(), n));
         }
@@ -134,7 +196,7 @@ pub fn run(args: &Args) -> ! {
         }
     }
     rep.rule = format!(
-        "every program `local a = IN() [local b = IN()]` + exactly k statements, k=1..n, nesting ≤ 2, from {{x = lit; if c then B end; if c then B else B end; if c then return end; x = x or lit; x = c and lit or lit}} over four alphabets (rich n≤{n_rich}, mid n≤{n_mid}, two-locals n≤{n_two}, core n≤{n_core}: {labels:?}); a probe P(i,x) stands at the start of every block and after every statement for every local; IN() is declared `nil|boolean|integer|string|table` and the program is executed in the luars VM once per combination of runtime values {{nil,true,false,1,'s',{{}}}} of the IN() calls; for every reached probe, runtime type(x) must be in γ(SemanticModel::infer_expr(x)) (γ: any/unknown/named types → every type, consts → base type, unions → union, never → ∅); non-trivial = at least one statement"
+        "every program `local a = IN() [local b = IN()]` + exactly k statements, k=1..n, nesting ≤ 2, from {{[local] x = R; if c then B end; if c then B else B end; if c then return end}} with R ∈ {{lit, x or lit, c and lit or lit}} over four alphabets (rich n≤{n_rich}, mid n≤{n_mid}, two-locals n≤{n_two}, core n≤{n_core}) and with the nested/parenthesised and-or right-hand sides, every literal in every operand position, for both `local x = R` and `x = R` (rhs n≤{n_rhs}, rhs-core n≤{n_rhs_core}, rhs-two n≤{n_rhs_two}); alphabets: {labels:?}; a probe P(i,x) stands at the start of every block and after every statement for every local; IN() is declared `nil|boolean|integer|string|table` and the program is executed in the luars VM once per combination of runtime values {{nil,true,false,1,'s',{{}}}} of the IN() calls; for every reached probe, runtime type(x) must be in γ(SemanticModel::infer_expr(x)) (γ: any/unknown/named types → every type, consts → base type, unions → union, never → ∅); non-trivial = at least one statement"
     );
     rep.exhaustive = exhaustive;
     rep.bounds = json!({"spaces": done, "nesting": 2, "inputs_per_local": 6, "wall_cap_s": args.wall_cap_s, "wall_cap_hit": dl.was_hit()});
